@@ -409,13 +409,56 @@ def run_history(ctx, p):
     if not state_ok(ctx, c, x, model, dict(sig, op='construct'), what):
         return
     readouts(ctx, c, x, model, dict(sig, op='construct'), what, full=len(ops) <= 3)
+    kept = []       # results handed out earlier (x[i], x[a:b], an iterated item) with the values they had: a list's items do not
+    #                 change when the list is mutated afterwards, and mutating a result does not change the list
+
+    def keep(k):
+        n = len(model)
+        try:
+            if k % 3 == 0:
+                i = -1 if k % 2 else 0
+                kept.append((x[i], [np.array(model[i], copy=True)], 'x[%d] taken after step %d (length %d)' % (i, k, n)))
+            elif k % 3 == 1:
+                kept.append((x[0:2], [np.array(m, copy=True) for m in model[0:2]], 'x[0:2] taken after step %d (length %d)' % (k, n)))
+            else:
+                kept.append((next(iter(x)), [np.array(model[0], copy=True)], 'first iterated item taken after step %d (length %d)' % (k, n)))
+        except (IndexError, StopIteration):
+            pass
+
+    def kept_ok(opname):
+        for g, exp, desc in kept:
+            ok = len(g.data) == len(exp) and all(isinstance(v, np.ndarray) and eq_arr(c, v, m, readout=True) for v, m in zip(g.data, exp))
+            ctx.judge('state', ok, dict(sig, kind='earlier_result_changed', op=opname),
+                      lambda: '%s: %s held %s, now holds %s' % (what(), desc, core.short(exp, 200), core.short(g.data, 200)))
+            if not ok:
+                return False
+        return True
+
+    keep(0)
     for k, name in enumerate(ops):
         done.append(name)
         x = apply_op(ctx, c, x, model, name, pool, start + k, dict(sig, op=name), what)
         if not state_ok(ctx, c, x, model, dict(sig, op=name), what):
             return
+        if not kept_ok(name):
+            return
+        if len(kept) < 8:
+            keep(k + 1)
         if len(ops) <= 3 or k == len(ops) - 1 or k % 7 == 0:
             readouts(ctx, c, x, model, dict(sig, op=name), what, full=len(ops) <= 3)
+    # mutating the results handed out must leave the object as it is
+    for g, exp, desc in kept:
+        try:
+            g.append(single(c, pool[0])[0])
+            g.reverse()
+            if len(g) > 1:
+                g.pop()
+        except Exception as e:
+            ctx.bad('state', dict(sig, kind='result_not_a_list', exc=type(e).__name__), '%s: %s: append / reverse / pop on the result raised %r' % (what(), desc, e))
+            return
+    if kept and not state_ok(ctx, c, x, model, dict(sig, op='mutate_results'), what):
+        return
+    ctx.cell('kept_results', c, min(len(kept), 8), min(len(m_[1]) for m_ in kept) if kept else 0)
     ctx.cell('history', c, start, len(ops))
     if len(ops) >= 2 and any(o in MUTATORS for o in ops):
         ctx.nontrivial('history', c, start, ops)
